@@ -92,11 +92,13 @@ PROPS = {
                     'mathematical segment boundaries of the canonical serialisation; unbounded in entry count and store size.',
     ),
     'C17': dict(
-        level='proof', verus=['c17_compressor'],
-        trusted_base=[A_TOOLS, A_EXTRACT, 'A-ENC: the encoder constructors (flate2, liblzma, bzip2, zstd) do not panic inside their DOCUMENTED level ranges, which are stated as preconditions of stand-in constructors in the unit'],
-        assumptions=['claimed for ONE sentence only: "a compression level the encoder cannot honour is reported as an error or mapped to a supported level, never a crash". Destination splitting and capability text are Path / &str code: not decidable here, not claimed',
+        level='proof', verus=['c17_compressor', 'c17_add_data'],
+        trusted_base=[A_TOOLS, A_EXTRACT, 'A-ENC: the encoder constructors (flate2, liblzma, bzip2, zstd) do not panic inside their DOCUMENTED level ranges, which are stated as preconditions of stand-in constructors in the unit',
+                      'A-PATH: std::path / OsStr / String plumbing called by add_data (PathBuf::from, parent, file_name, strip_prefix, to_string_lossy, starts_with, clone, format!) does not panic; its RESULTS are arbitrary in the unit (no specification), so the proof holds for whatever std::path reports; sha2 / hex / BTreeMap / BTreeSet calls likewise'],
+        assumptions=['claimed for TWO parts: "a compression level the encoder cannot honour is reported as an error or mapped to a supported level, never a crash", and "destinations that cannot be split into a directory and a file name are reported as errors": PackageBuilder::add_data (every file setter ends there) has no reachable panic for ANY destination string. Capability text (filecaps.rs, &str pattern code) and the metadata setters are not claimed',
+                     'incompleteness, stated: because std::path results are arbitrary in the unit, an `unwrap` that std::path semantics would justify is NOT provable here and would be reported (the two unwraps repaired by 8440da6 were not justified: 69 of the 1365 destinations over {/ . .. a} up to 5 symbols panicked)',
                      'R1: all compression cfg features treated as enabled, zstdmt off'],
-        explanation='Verbatim body of TryFrom<CompressionWithLevel> for Compressor: every encoder constructor call is reached only with a level inside the documented range (precondition obligations), out-of-range levels return Err, and the variant constructed matches the variant requested.',
+        explanation='Verbatim body of TryFrom<CompressionWithLevel> for Compressor: every encoder constructor call is reached only with a level inside the documented range (precondition obligations), out-of-range levels return Err, and the variant constructed matches the variant requested. Verbatim body of PackageBuilder::add_data: every unwrap / expect / index on a std::path result would be a precondition obligation - there is none left, each case returns Error::InvalidDestinationPath.',
     ),
     'C18': dict(
         level='proof', verus=['c18_filemode'],
@@ -132,6 +134,7 @@ FIX_COMMITS = [
     '797fe0d fix: pad file data in the large-file (stripped cpio) branch of the builder',
     '290c9e0 fix: emit the packager and group given to the builder',
     'ea8105c fix: emit the verify scriptlet given to the builder and add its accessor',
+    '8440da6 fix: destinations without a file name or a strippable parent are errors, not panics',
 ]
 
 PROPS['C06'] = dict(
